@@ -425,7 +425,7 @@ usable output path ⟹ a complete `.sol` with exactly the solver's code and the 
 dimensions. -/
 theorem C09_success (sc : Scenario)
     (hfault : sc.fault = none) (hflags : sc.flags.all Flag.passes = true) (hstub : sc.hasStub = true)
-    (hopts : sc.opts.all Opt.clean = true) (hobj : sc.objnoTooBig = false)
+    (hopts : (expandOpts sc.opts).all Opt.clean = true) (hobj : sc.objnoTooBig = false)
     (hampl : sc.ampl = true) (hopen : sc.out.canOpen = true) (hflush : sc.out.canFlush = true) :
     run sc = .sol { code := sc.answer.code, ncons := sc.dims.ncons,
                     nduals := if sc.answer.haveDual then sc.dims.ncons else 0,
@@ -439,7 +439,7 @@ theorem C09_success (sc : Scenario)
 far as the header in the option window — with the `wantsol` stored so far. -/
 theorem C09_bad_option_ending (sc : Scenario) (pre : List Opt) (x : Opt) (post : List Opt)
     (hfault : sc.fault = none) (hflags : sc.flags.all Flag.passes = true) (hstub : sc.hasStub = true)
-    (hopts : sc.opts = pre ++ x :: post) (hpre : pre.all Opt.clean = true) (hx : x.clean = false) :
+    (hopts : expandOpts sc.opts = pre ++ x :: post) (hpre : pre.all Opt.clean = true) (hx : x.clean = false) :
     ending sc = .raised sc.ampl
       (lastWantsol pre (if sc.ampl then 1 else flagsWantsol sc.flags 0)) .options x.raise := by
   simp [ending, faultBefore, hfault, parseFlags_passing _ _ hflags, hstub, hopts,
@@ -453,6 +453,62 @@ theorem C09_suffix_exceptions_swallowed (sc : Scenario) (r : Raise) (hr : r ≠ 
   simp [hr]
   rfl
 
+/-! ## Option files -/
+
+/-- An option file whose tokens are all clean and which is read to the end behaves exactly like its
+tokens given on the command line at that place. -/
+theorem C09_optfile_spliced (pre post : List OptItem) (inner : List Opt) (w : Nat) :
+    parseOpts (expandOpts (pre ++ .optfile inner false :: post)) w =
+    parseOpts (expandOpts (pre ++ inner.map OptItem.tok ++ post)) w := by
+  have hmap : ∀ l : List Opt, ∀ rest, expandOpts (l.map OptItem.tok ++ rest) = l ++ expandOpts rest := by
+    intro l; induction l with
+    | nil => intro rest; rfl
+    | cons o l ih => intro rest; simp [expandOpts, ih]
+  have happ : ∀ a b : List OptItem, expandOpts (a ++ b) = expandOpts a ++ expandOpts b := by
+    intro a; induction a with
+    | nil => intro b; rfl
+    | cons x a ih => intro b; cases x <;> simp [expandOpts, ih]
+  have hmap' : ∀ l : List Opt, expandOpts (l.map OptItem.tok) = l := by
+    intro l; simpa [expandOpts] using hmap l []
+  simp [happ, hmap', expandOpts]
+
+/-- **Unreadable option file** (missing path, a directory, `/proc/self/mem`, I/O error): if
+everything before it and the tokens that could be read are clean, the run — provided it gets as far as
+the header — ends in the option window with an `MP_RAISE`-kind exception, with the `wantsol` stored so
+far (including by the file's own readable tokens).  In particular it *ends*: the model has no row in
+which option-file processing does not terminate. -/
+theorem C09_optfile_unreadable_ending (sc : Scenario) (pre post : List OptItem) (inner : List Opt)
+    (hfault : sc.fault = none) (hflags : sc.flags.all Flag.passes = true) (hstub : sc.hasStub = true)
+    (hopts : sc.opts = pre ++ .optfile inner true :: post)
+    (hpre : (expandOpts pre).all Opt.clean = true) (hinner : inner.all Opt.clean = true) :
+    ending sc = .raised sc.ampl
+      (lastWantsol (expandOpts pre ++ inner) (if sc.ampl then 1 else flagsWantsol sc.flags 0)) .options .plain := by
+  have happ : ∀ a b : List OptItem, expandOpts (a ++ b) = expandOpts a ++ expandOpts b := by
+    intro a; induction a with
+    | nil => intro b; rfl
+    | cons x a ih => intro b; cases x <;> simp [expandOpts, ih]
+  have hexp : expandOpts sc.opts = (expandOpts pre ++ inner) ++ Opt.bad :: expandOpts post := by
+    rw [hopts, happ]; simp [expandOpts]
+  have hclean : (expandOpts pre ++ inner).all Opt.clean = true := by
+    simp only [List.all_append, Bool.and_eq_true]; exact ⟨hpre, hinner⟩
+  have := parseOpts_split (expandOpts pre ++ inner) .bad (expandOpts post)
+    (if sc.ampl then 1 else flagsWantsol sc.flags 0) hclean rfl
+  simp only [List.append_assoc] at this
+  simp [ending, faultBefore, hfault, parseFlags_passing _ _ hflags, hstub, hexp, this, Opt.raise]
+
+/-- …and with `-AMPL` and a writable path that run leaves a complete failure `.sol` (code 500), exit 0
+— the outcome the seeded "spin forever on an unreadable option file" change destroys. -/
+theorem C09_optfile_unreadable_outcome (sc : Scenario) (pre post : List OptItem) (inner : List Opt)
+    (hfault : sc.fault = none) (hflags : sc.flags.all Flag.passes = true) (hstub : sc.hasStub = true)
+    (hampl : sc.ampl = true) (hout : sc.out.writable = true)
+    (hopts : sc.opts = pre ++ .optfile inner true :: post)
+    (hpre : (expandOpts pre).all Opt.clean = true) (hinner : inner.all Opt.clean = true) :
+    run sc = .sol ⟨500, 0, 0, 0, 0, true⟩ false := by
+  rw [run, C09_optfile_unreadable_ending sc pre post inner hfault hflags hstub hopts hpre hinner,
+    conclude_raised _ _ _ _ _ (by simp)]
+  simp [Stage.insideRun, Stage.handlerAvailable, wantsFile, hampl, hout, errFile, errDims, Stage.dimsKnown,
+    Raise.toExn, Exn.reportCode, solFAILURE]
+
 /-! ## Counterexamples to the full-strength statement (each replayed on the real driver) -/
 
 /-- a small valid model: 1 constraint, 2 variables, solver answers 0 with a primal vector -/
@@ -462,8 +518,8 @@ def scBase : Scenario :=
 
 /-- `recsolver stub -AMPL foo=1`: `.sol` with count lines 0 0 0 0 for a 1×2 model. -/
 theorem C09_counterexample_optdims :
-    run { scBase with opts := [.bad] } = .sol ⟨500, 0, 0, 0, 0, true⟩ false ∧
-    ¬ Good { scBase with opts := [.bad] } (run { scBase with opts := [.bad] }) := by decide
+    run { scBase with opts := [.tok .bad] } = .sol ⟨500, 0, 0, 0, 0, true⟩ false ∧
+    ¬ Good { scBase with opts := [.tok .bad] } (run { scBase with opts := [.tok .bad] }) := by decide
 
 /-- (fixed by abd397a; was `C09_counterexample_code1`) truncated NL body / unsupported operator:
 solve code 500 and the property holds. -/
@@ -495,9 +551,9 @@ theorem C09_fixed_writeerr :
 /-- `recsolver stub foo=1` (no `-AMPL`): the error is printed on stdout, exit 0;
 with `wantsol=8` before it, nothing is printed at all. -/
 theorem C09_counterexample_standalone :
-    run { scBase with ampl := false, opts := [.bad] } = .stdoutOnly 500 true ∧
-    run { scBase with ampl := false, opts := [.wantsol 8, .bad] } = .stdoutOnly 500 false ∧
-    ¬ Good { scBase with ampl := false, opts := [.bad] } (run { scBase with ampl := false, opts := [.bad] }) := by decide
+    run { scBase with ampl := false, opts := [.tok .bad] } = .stdoutOnly 500 true ∧
+    run { scBase with ampl := false, opts := [.tok (.wantsol 8), .tok .bad] } = .stdoutOnly 500 false ∧
+    ¬ Good { scBase with ampl := false, opts := [.tok .bad] } (run { scBase with ampl := false, opts := [.tok .bad] }) := by decide
 
 /-- an `mp::Error(msg, 512)` from the backend's constructor: `Error: …` on stderr, exit status 0. -/
 theorem C09_counterexample_ctorcode :
